@@ -35,6 +35,7 @@ structure IdxSpec where
   name : String
   cols : List String
   unique : Bool
+  itype : String := "BTREE"     -- index type; an unspecified type is the default one
   deriving DecidableEq, Repr, Inhabited
 
 structure FkSpec where
@@ -180,12 +181,12 @@ def exec (refCheck : Bool) (db : DB) : Stmt → Option DB
     | some tb =>
       if !tb.idxs.any (·.name == o) || tb.idxs.any (·.name == n) then none
       else some (db.replace { tb with idxs := tb.idxs.map (fun i => if i.name == o then { i with name := n } else i) })
-  | .createIndex t name cols uniq _ =>
+  | .createIndex t name cols uniq u =>
     match db.find t with
     | none => none
     | some tb =>
       if tb.idxs.any (·.name == name) || cols.isEmpty || !(cols.all tb.hasCol) then none
-      else some (db.replace { tb with idxs := tb.idxs ++ [{ name := name, cols := cols, unique := uniq }] })
+      else some (db.replace { tb with idxs := tb.idxs ++ [{ name := name, cols := cols, unique := uniq, itype := if u == "" then "BTREE" else u }] })
   | .dropIndex t name =>
     match db.find t with
     | none => none
